@@ -28,6 +28,7 @@ AUTOMUT_TRIAGE = [
 
 def run(chk):
     repo = chk.repo
+    cm.schema(chk, repo, "C15")
     chk.rule("C15.D1", "norm getter: Euclidean norm over the last axis with keepdims, as a one-component field on the same mesh "
                        "with the same unit and validity")
     v = FV(repo, "field.Field.norm")
